@@ -867,6 +867,18 @@ def scenario_scaler(c):
                         bad.setdefault("C17.same_result_as_scaled_objective", "start at a stationary point, s=%g: %s" % (s, "; ".join(d)[:300]))
                     if len(callsX) != 1:
                         bad.setdefault("C17.scaler_called_once_with_start_point_and_unscaled_gradient", "start at a stationary point: scaler invoked %d times" % len(callsX))
+        # runs that end on the relative-reduction test (ftol > 0): the test has an absolute floor max(|f_old|, |f|, 1), so it
+        # must be made on the scaled value, like in the run on s*f
+        if not c.get("jac"):
+            for s_ in (64.0, 1.0 / 64.0):
+                for ftol_ in (1e-2, 1e-4, 1e-6):
+                    SF = run_once(p, dict(base, ftol=ftol_, maxiter=60), callback_kind="false", extra=dict(gradient_scaler=lambda x, g, l_, u_, _s=s_: _s))
+                    EF = run_once(p, dict(base, ftol=ftol_, maxiter=60), L=Logged(p, scale_obj=s_), callback_kind="false")
+                    if SF["exc"] or EF["exc"]:
+                        continue
+                    d = _same_state(SF["snap"], EF["snap"], fields=("x", "fun", "jac", "nfev", "njev", "nit", "message"), tol=1e-9)
+                    if d:
+                        bad.setdefault("C17.same_result_as_scaled_objective", "ftol=%g, s=%g: %s" % (ftol_, s_, "; ".join(d)[:300]))
         # a curvature threshold (eps_SY) that matters: pairs of an ordinary run have s.y/y.y = r; with s = 4 (0.25) and
         # eps_SY = r_min/1.5 (1.5 r_min) the scaled problem sees r/s, just below (above) the threshold
         if not c.get("jac"):
